@@ -311,7 +311,7 @@ func genHistory(o genOpts) func(t *rapid.T) History {
 		}
 		for i := 0; i < nsteps; i++ {
 			var s Step
-			if rapid.IntRange(0, 99).Draw(t, "wrongkind") < o.wrongKind {
+			if rapid.IntRange(0, 99).Draw(t, "wrongkind") >= 100-o.wrongKind { // rapid favours small draws: the rare class sits at the top
 				s.Op = rapid.SampledFrom(all).Draw(t, "op")
 			} else {
 				s.Op = rapid.SampledFrom(fit).Draw(t, "op")
